@@ -15,6 +15,8 @@
 (*               "::ffff:a.b.c.d/128", or ParseIPNet(addr, CIDRMask(128,   *)
 (*               128))) yields a 21-byte key next to the 9-byte one.       *)
 (*               FixWideMask = TRUE describes code that normalises it.     *)
+(*               The same holds for an IPv4 NETWORK given with the mask    *)
+(*               /(96+n) in 16 bytes ("::ffff:a.b.c.0/120" for /24).       *)
 (*   now         logical clock, whole ticks                                *)
 (*                                                                         *)
 (* Every store call is one bbolt read-write transaction (walletdb.Update), *)
@@ -27,6 +29,16 @@
 (*                  delete) and the zero Status returned                   *)
 (*   Reopen         db closed, reopened, NewStore (buckets exist)          *)
 (*   Tick           time passes                                            *)
+(* Two callers.  The store is used from several goroutines (IsBanned from   *)
+(* the peer handler / connection manager, BanPeer from the block manager   *)
+(* and query goroutines).  A call is a SEQUENCE of database transactions;  *)
+(* in the code as it is every call is exactly ONE, so a second caller's    *)
+(* call that is placed after the k-th transaction of a call in progress    *)
+(* takes effect entirely before it (k = 0) or entirely after it (k >= 1):  *)
+(* Pair(x, y, k).  The driver really runs the second call in a goroutine   *)
+(* of its own at that point (a walletdb.DB proxy gates every transaction   *)
+(* of the store), so code that splits a call into several transactions is  *)
+(* exposed to the interleaving.                                            *)
 (* The spelling group g only selects the key form; the concrete string is  *)
 (* chosen by the driver.  ParseIPNet (util.go) is part of Ban/Unban/       *)
 (* Status here: the driver always goes from text to *net.IPNet through it  *)
@@ -40,6 +52,7 @@ CONSTANTS NC,          \* classes 1..NC (see BanStoreProps for their meaning)
           Long,
           NR,          \* reasons 1..NR
           MaxT,        \* the clock runs 0..MaxT
+          NK,          \* two-caller steps place the second call after transaction 0..NK-1 (0: no such steps)
           FixWideMask
 
 VARIABLES rec, now, abs, act, viol
@@ -48,9 +61,9 @@ vars == <<rec, now, abs, act, viol>>
 
 NG == 3
 Durations == {-1} \cup (1..MaxShort) \cup {Long}
-V4Single == {1, 4}
+V4 == {1, 3, 4}
 
-Form(c, g) == IF ~FixWideMask /\ c \in V4Single /\ g = 3 THEN 2 ELSE 1
+Form(c, g) == IF ~FixWideMask /\ c \in V4 /\ g = 3 THEN 2 ELSE 1
 
 Get(rc, c, g) == rc[c][Form(c, g)]
 Put(rc, c, g, v) == [rc EXCEPT ![c][Form(c, g)] = v]
@@ -71,53 +84,74 @@ ObsOf(rc, t) ==
 
 Obs == ObsOf(rec, now)
 
-Act(op, c, g, d, r, t, res, b, rr) ==
-  [op |-> op, c |-> c, g |-> g, d |-> d, r |-> r, now |-> t, res |-> res, b |-> b, rr |-> rr]
+\* One store call x = [op, c, g, d, r] on buckets rc: new buckets and answer.
+Call(rc, x) ==
+  CASE x.op = "Ban" ->
+         [rec |-> Put(rc, x.c, x.g, <<now + x.d, x.r>>), b |-> -1, rr |-> -1]
+    [] x.op = "Unban" ->
+         [rec |-> Put(rc, x.c, x.g, <<NoRec, 0>>), b |-> -1, rr |-> -1]
+    [] x.op = "Status" ->
+         LET v    == Get(rc, x.c, x.g)
+             ans  == Answer(rc, now, x.c, x.g)
+             gone == v[1] # NoRec /\ ~(now < v[1])
+         IN  [rec |-> IF gone THEN Put(rc, x.c, x.g, <<NoRec, 0>>) ELSE rc,
+              b |-> ans[1], rr |-> ans[2]]
+
+Calls(Gs) ==
+  {[op |-> "Ban", c |-> c, g |-> g, d |-> d, r |-> r] : c \in 1..NC, g \in Gs, d \in Durations, r \in 1..NR}
+  \cup {[op |-> o, c |-> c, g |-> g, d |-> 0, r |-> 0] : o \in {"Unban", "Status"}, c \in 1..NC, g \in Gs}
+
+None == [op |-> "none", c |-> 0, g |-> 0, d |-> 0, r |-> 0]
+
+Act(x, t, res, b, rr, k, y, res2, b2, rr2) ==
+  [op |-> x.op, c |-> x.c, g |-> x.g, d |-> x.d, r |-> x.r, now |-> t, res |-> res, b |-> b, rr |-> rr,
+   k |-> k, op2 |-> y.op, c2 |-> y.c, g2 |-> y.g, d2 |-> y.d, r2 |-> y.r, res2 |-> res2, b2 |-> b2, rr2 |-> rr2]
+
+Plain(op, t) == Act([op |-> op, c |-> 0, g |-> 0, d |-> 0, r |-> 0], t, "ok", -1, -1, -1, None, "none", -1, -1)
 
 Finish(a) ==
   /\ act'  = a
   /\ abs'  = AbsNext(abs, a, Obs')
   /\ viol' = Viol(abs, Obs, a, abs', Obs')
 
-Ban(c, g, d, r) ==
-  /\ rec' = Put(rec, c, g, <<now + d, r>>)
-  /\ UNCHANGED now
-  /\ Finish(Act("Ban", c, g, d, r, now, "ok", -1, -1))
-
-Unban(c, g) ==
-  /\ rec' = Put(rec, c, g, <<NoRec, 0>>)
-  /\ UNCHANGED now
-  /\ Finish(Act("Unban", c, g, 0, 0, now, "ok", -1, -1))
-
-Status(c, g) ==
-  LET v    == Get(rec, c, g)
-      ans  == Answer(rec, now, c, g)
-      gone == v[1] # NoRec /\ ~(now < v[1])
-  IN  /\ rec' = IF gone THEN Put(rec, c, g, <<NoRec, 0>>) ELSE rec
+\* BanIPNet / UnbanIPNet / Status by a single caller
+Single(x) ==
+  LET r == Call(rec, x)
+  IN  /\ rec' = r.rec
       /\ UNCHANGED now
-      /\ Finish(Act("Status", c, g, 0, 0, now, "ok", ans[1], ans[2]))
+      /\ Finish(Act(x, now, "ok", r.b, r.rr, -1, None, "none", -1, -1))
+
+\* call y of a second caller placed after the k-th transaction of call x
+Pair(x, y, k) ==
+  LET xFirst == k >= 1                       \* every call is one transaction
+      r1 == Call(rec, IF xFirst THEN x ELSE y)
+      r2 == Call(r1.rec, IF xFirst THEN y ELSE x)
+      rx == IF xFirst THEN r1 ELSE r2
+      ry == IF xFirst THEN r2 ELSE r1
+  IN  /\ rec' = r2.rec
+      /\ UNCHANGED now
+      /\ Finish(Act(x, now, "ok", rx.b, rx.rr, k, y, "ok", ry.b, ry.rr))
 
 Reopen ==
   /\ UNCHANGED <<rec, now>>
-  /\ Finish(Act("Reopen", 0, 0, 0, 0, now, "ok", -1, -1))
+  /\ Finish(Plain("Reopen", now))
 
 Tick ==
   /\ now < MaxT
   /\ now' = now + 1
   /\ UNCHANGED rec
-  /\ Finish(Act("Tick", 0, 0, 0, 0, now + 1, "ok", -1, -1))
+  /\ Finish(Plain("Tick", now + 1))
 
 Init ==
   /\ rec = [c \in 1..NC |-> [f \in 1..2 |-> <<NoRec, 0>>]]
   /\ now = 0
   /\ abs = AbsInit
-  /\ act = Act("Init", 0, 0, 0, 0, 0, "ok", -1, -1)
+  /\ act = Plain("Init", 0)
   /\ viol = {}
 
 Next ==
-  \/ \E c \in 1..NC : \E g \in Groups : \E d \in Durations : \E r \in 1..NR : Ban(c, g, d, r)
-  \/ \E c \in 1..NC : \E g \in Groups : Unban(c, g)
-  \/ \E c \in 1..NC : \E g \in Groups : Status(c, g)
+  \/ \E x \in Calls(Groups) : Single(x)
+  \/ \E x \in Calls({1}) : \E y \in Calls({1}) : \E k \in 0..(NK - 1) : Pair(x, y, k)
   \/ Reopen
   \/ Tick
 
@@ -129,7 +163,7 @@ TypeOK ==
   /\ \A c \in 1..NC : \A f \in 1..2 :
         /\ rec[c][f][1] \in Int
         /\ rec[c][f][2] \in 0..NR
-        /\ (f = 2 /\ (FixWideMask \/ c \notin V4Single)) => rec[c][f] = <<NoRec, 0>>
+        /\ (f = 2 /\ (FixWideMask \/ c \notin V4)) => rec[c][f] = <<NoRec, 0>>
 
 \* Design-level statement on the model; an invariant only when the switches
 \* describe repaired code (otherwise violating transitions are exported and
